@@ -236,6 +236,7 @@ pub struct Gen<'a> {
     pub meas: MeasOracle,
     pub frames: super::oracle_frames::FrameOracle,
     pub view: super::oracle_view::ViewOracle,
+    pub tlvo: super::oracle_tlv::TlvOracle,
     pub ex: InstExec,
     pub out: &'a mut Out,
     pub w: World,
@@ -258,6 +259,7 @@ impl<'a> Gen<'a> {
             let before: Vec<String> = self.w.ports.iter().map(|p| p.state.clone()).collect();
             self.frames.check(self.out, &before, &line, &obs);
             self.view.check(self.out, &before, &line, &obs);
+            self.tlvo.check(self.out, &before, &line, &obs);
         }
         let kind: String = {
             let ws: Vec<&str> = line.split_whitespace().collect();
@@ -1055,6 +1057,7 @@ pub fn new_gen(out: &mut Out) -> Gen<'_> {
         bmca_since_slave_only: false,
         frames: Default::default(),
         view: Default::default(),
+        tlvo: Default::default(),
         meas: MeasOracle::default(),
         ex: InstExec::new(),
         out,
@@ -1338,6 +1341,7 @@ pub fn generate(out: &mut Out, rng: &Prng, thorough: bool) {
         bmca_since_slave_only: false,
         frames: Default::default(),
         view: Default::default(),
+        tlvo: Default::default(),
         meas: MeasOracle::default(),
         ex: InstExec::new(),
         out,
